@@ -28,7 +28,7 @@ func init() {
 			"every transition is replayed on a fresh container and judged by the transition relation plus view coherence (traversal, Object.keys, for-in, " +
 			"JSON.stringify, length, read and in for every key of the alphabet); Go-side alphabets include size-preserving replacements (delete one key + insert another as one " +
 			"operation and as two, same-length slice/array replacement in place and of the Go variable); every path of length >= 2 is replayed a second time observing " +
-			"(enumerating) only the initial and the final state, which must equal the fully observed replay (enumerate / mutate / enumerate); depth 3 for the map containers also in quick. lethal: delete of non-index keys on slices/arrays, each in a child process. " +
+			"(enumerating) only the initial and the final state, which must equal the fully observed replay (enumerate / mutate / enumerate); depth 3 for the map containers also in quick. lethal: delete of non-index keys on slices/arrays, each in a child process. retained: var c = <slot> for 5 holder slots (pointer field, nested pointer field, map value, slice element, interface field) x every sequence of 1 and 2 of 7 operations (re-point / nil the slot from script and from Go, rename the pointees through the reference, the slot and Go), all views against a Go pointer model after every step; samenamed: ordered pairs and triples of 6 distinct struct types printing the same name with different layouts in one runtime, fields read / tested / written by name with the Go side read after every write, object -> struct parameter, each observed again after the others. " +
 			"A matrix cell is non-trivial when the callee was reached; a history transition when the operation completed without throwing.",
 		Families: []engine.Family{
 			{Name: "matrix", Run: runMatrix},
@@ -44,6 +44,8 @@ func init() {
 			{Name: "earlyexit", Run: brig.RunEarlyExit},
 			{Name: "mapkeys", Run: brig.RunMapKeys},
 			{Name: "kindtwins", Run: func(r *engine.Run) { brig.RunKindTwins(r, true) }},
+			{Name: "retained", Run: brig.RunRetained},
+			{Name: "samenamed", Run: brig.RunSameNamed},
 			{Name: "histories", Run: runHistories},
 			{Name: "lethal", Run: runLethal},
 		},
